@@ -122,7 +122,12 @@ func ncfRunTwin(sp histSpec, plan ncfPlan, rep *Report) (t ncfTwin) {
 			t.w[c] = append(t.w[c], int(e.w.St.DeltasWithoutTempAddresses()))
 		}
 		if e.step == plan.ends[c] {
-			if err, _ := e.Commit(false, 1); err != nil {
+			err, log, hung := e.CommitWD(false, 1)
+			if hung != "" {
+				e.fail("C14: a fault-free commit does not return", wdDetail(hung, false, 1, -1, "no fault armed", log))
+				break
+			}
+			if err != nil {
 				e.fail("fault-free commit of the twin failed", err.Error())
 			}
 			t.snaps = append(t.snaps, e.base.Clone())
@@ -143,16 +148,23 @@ func ncfFlags(w *World) map[atree.ValueID]ndCont {
 	return m
 }
 
-// ncfRunCase executes one case; returns the number of failed attempts and whether a container crossed the
-// inline limit after a failed attempt of the faulted round.
-func ncfRunCase(sp histSpec, plan ncfPlan, twin ncfTwin, c, k int, v ncfVariant, fr *Rng, rep *Report, viol func(step int, what, detail string)) (attempts int, crossed bool) {
+// ncfRunCase executes one case; returns the number of failed attempts, whether a container crossed the
+// inline limit after a failed attempt of the faulted round, and whether a commit did not return (watchdog
+// of commit_watchdog.go: the storage is then abandoned).  Armed calls at even positions of the order-relaxed
+// commit take slowFaultDelay before they fail.
+func ncfRunCase(sp histSpec, plan ncfPlan, twin ncfTwin, c, k int, v ncfVariant, fr *Rng, rep *Report, viol func(step int, what, detail string)) (attempts int, crossed bool, wedged bool) {
 	e := newExec(sp, NewReport("", 0))
 	w, base := e.w, e.base
 	ctx := fmt.Sprintf("round %d, first attempt %s fails at call %d of %d", c, v.name, k, twin.w[c][0])
 	bad := func(what, detail string) { viol(e.step, what, ctx+" | "+detail) }
 
 	commitPlain := func(v ncfVariant) bool {
-		err, _ := e.Commit(v.nondet, v.workers)
+		err, log, hung := e.CommitWD(v.nondet, v.workers)
+		if hung != "" {
+			wedged = true
+			bad("C14: a commit during which no ledger call fails does not return", wdDetail(hung, v.nondet, v.workers, int(w.St.DeltasWithoutTempAddresses()), "no fault armed", log))
+			return false
+		}
 		if e.failed {
 			return false
 		}
@@ -204,9 +216,20 @@ func ncfRunCase(sp histSpec, plan ncfPlan, twin ncfTwin, c, k int, v ncfVariant,
 		nAll := int(w.St.Deltas())
 		fpBefore := e.libFingerprint()
 		before := segSnapshot(base)
-		base.Arm(k)
-		err, log := e.Commit(v.nondet, v.workers)
-		base.Arm(-1)
+		slow := v.nondet && k%2 == 0
+		armSlow(base, k, slow)
+		err, log, hung := e.CommitWD(v.nondet, v.workers)
+		if hung != "" {
+			wedged = true
+			rep.Event("commit_did_not_return")
+			how := fmt.Sprintf("ledger call %d of this attempt (%s) armed to fail", k, v.name)
+			if slow {
+				how += ", the failing call takes " + slowFaultDelay.String()
+			}
+			bad("C14: a commit with a failing ledger call does not return (it neither reports the error nor finishes)", wdDetail(hung, v.nondet, v.workers, len(pend), how, log))
+			return false
+		}
+		disarmSlow(base)
 		if e.failed {
 			return false
 		}
@@ -378,14 +401,17 @@ func ncfRunCase(sp histSpec, plan ncfPlan, twin ncfTwin, c, k int, v ncfVariant,
 		}
 		ci++
 	}
+	if wedged {
+		return attempts, crossed, true
+	}
 	if e.failed {
 		bad("C14: history oracle failed: "+e.what, e.detail)
-		return attempts, crossed
+		return attempts, crossed, false
 	}
 	if d := SameRegisters(twin.snaps[len(twin.snaps)-1], base); d != "" {
 		bad("C08: final ledger of the history continued after recovery differs from the fault-free twin", d)
 	}
-	return attempts, crossed
+	return attempts, crossed, false
 }
 
 func cmdNestedCommitFault(a Args) {
@@ -396,7 +422,7 @@ func cmdNestedCommitFault(a Args) {
 	rep := NewReport(prop, a.Seed)
 	rep.Rule = "random nested World histories (36..80 ops, 1-3 roots, 60% prefilled with ~8-30 elements incl. nested containers, arrays+maps, depth 2..4, SomeValue wrappers, child handles, detached children) at T in {256,300,512} cut into 2-3 rounds with 1-3 mid points each; fault-free twin: FastCommit(1) at every round end; " +
 		"for every round c, flavour in {FastCommit, NondeterministicFastCommit} x workers {1,4} and EVERY fault position k of the commit attempted at the round's first mid point (all k if W<=10, else 10 sampled incl. first/last) the history is re-executed from scratch: attempt fails at call k, operations continue, further attempts fail at random positions/flavours at the later mid points and (50%) at the round end, then one fault-free commit; " +
-		"after every failed attempt: *ExternalError, exactly one failed call, every owned pending slab still pending with untouched register or processed and gone from the write set, nothing else touched, VerifyArray/VerifyMap + deep shadow comparison + library fingerprint unchanged, every root re-opened by identifier through the same storage deep-equal to the shadow; after the fault-free commit: nothing pending, ledger byte-identical to the twin's after that round, fresh storage over a clone reloads deep-equal content, CheckStorageHealth; final ledger byte-identical to the twin's. " +
+		"every commit attempt runs under a watchdog and must return (20 s, or all goroutines parked for 1 s); armed calls at even positions of the order-relaxed commit take 2 ms before failing; after every failed attempt: *ExternalError, exactly one failed call, every owned pending slab still pending with untouched register or processed and gone from the write set, nothing else touched, VerifyArray/VerifyMap + deep shadow comparison + library fingerprint unchanged, every root re-opened by identifier through the same storage deep-equal to the shadow; after the fault-free commit: nothing pending, ledger byte-identical to the twin's after that round, fresh storage over a clone reloads deep-equal content, CheckStorageHealth; final ledger byte-identical to the twin's. " +
 		"non-trivial = case in which a container crossed the inline limit between two attempts the earlier of which failed; histories are added until -steps failed attempts were made (or -n histories)"
 	rng := NewRng(a.Seed)
 	defer atree.VerifSetThreshold(1024)
@@ -411,6 +437,10 @@ func cmdNestedCommitFault(a Args) {
 		}
 		if total >= budget {
 			rep.Event("budget_exhausted")
+			break
+		}
+		if wdExhausted() {
+			rep.Event("run_stopped_after_commits_that_did_not_return")
 			break
 		}
 		sp := histSpec{
@@ -437,6 +467,7 @@ func cmdNestedCommitFault(a Args) {
 			continue
 		}
 		fr := hr.Fork(77)
+		wedged := false
 		for c := range plan.ends {
 			if len(plan.mids[c]) == 0 || len(twin.w[c]) == 0 {
 				rep.Event("round_without_mid_point")
@@ -468,10 +499,11 @@ func cmdNestedCommitFault(a Args) {
 			}
 			for _, v := range ncfVariants {
 				for _, k := range ks {
-					if len(rep.Violations) > nviol+5 {
+					if len(rep.Violations) > nviol+5 || wedged {
 						break
 					}
-					n, crossed := ncfRunCase(sp, plan, twin, c, k, v, fr, rep, viol)
+					n, crossed, wd := ncfRunCase(sp, plan, twin, c, k, v, fr, rep, viol)
+					wedged = wd // a commit did not return: the history is abandoned
 					total += n
 					rep.Event("cases")
 					if crossed {
